@@ -311,6 +311,62 @@ theorem factor_all_complete (hpers : AggPersistent P) (c : Canon) (ps : List Pla
   intro a
   rw [hext a, ext_eq]
 
+/-! ### with the auxiliary / helper rule on both sides: unfolding a positive body atom -/
+
+/-- the program with the literal set at every place AND the rule `aux(V̄) :- S.` -/
+def beforeWith (c : Canon) (ps : List Place) (ctx : Prog) : Prog := ctx ++ c.stm :: ps.map fun p => (c.split p).orig
+
+theorem models_beforeWith (c : Canon) (ps : List Place) (hne : 0 < ps.length) (hps : ∀ p ∈ ps, PlaceOk c p) (ctx : Prog)
+    (hw : (sd P c ps (denote (stdParams P) ctx)).WF) (H T : Interp) :
+    HT.Models (denote (stdParams P) (beforeWith c ps ctx)) H T ↔
+      HT.Models (HT.Union (sd P c ps (denote (stdParams P) ctx)).orig
+        ((sd P c ps (denote (stdParams P) ctx)).defs hw).rules) H T := by
+  -- the statements other than the canonical rule are those of `before`; the canonical rule is the definition
+  have hb := models_before P c ps hps ctx H T
+  rw [models_denote] at hb ⊢
+  simp only [Models, beforeWith, before, List.mem_append, List.mem_cons, List.mem_map] at hb ⊢
+  constructor
+  · intro h r hr
+    rcases hr with hr | ⟨a, ⟨k, rfl⟩, rfl⟩
+    · exact hb.mp (fun s hs => h s (hs.elim Or.inl (fun x => Or.inr (Or.inr x)))) r hr
+    · have key : ∀ W : Interp, stmSat (stdParams P) W T c.stm →
+          (sd P c ps (denote (stdParams P) ctx)).dfn ((sd P c ps (denote (stdParams P) ctx)).aux k) W T → W ⟨c.auxName, k⟩ := by
+        rintro W hW ⟨⟨i, e⟩, hk, hn⟩
+        have hp := hps _ (List.get_mem ps i)
+        have := ((canon_models P c _ hp W T).mp hW _ ⟨e, rfl⟩).1 hn
+        have hk' : k = ((c.split (ps.get i)).vs).map e := by simp only [sd] at hk; cases hk; rfl
+        rw [hk']
+        exact (auxHead_std P _ e W T c.auxName _).mp this
+      have hc := h c.stm (Or.inr (Or.inl rfl))
+      refine ⟨key H hc, ?_⟩
+      rintro ⟨⟨i, e⟩, hk, hn⟩
+      have hp := hps _ (List.get_mem ps i)
+      have := ((canon_models P c _ hp H T).mp hc _ ⟨e, rfl⟩).2 hn
+      have hk' : k = ((c.split (ps.get i)).vs).map e := by simp only [sd] at hk; cases hk; rfl
+      rw [hk']
+      exact (auxHead_std P _ e T T c.auxName _).mp this
+  · intro h s hs
+    rcases hs with hs | rfl | hs
+    · exact hb.mpr (fun r hr => h r (Or.inl hr)) s (Or.inl hs)
+    · have hp := hps _ (List.get_mem ps ⟨0, hne⟩)
+      apply (canon_models P c _ hp H T).mpr
+      rintro r ⟨e, rfl⟩
+      have := h _ (Or.inr ⟨⟨c.auxName, ((c.split (ps.get ⟨0, hne⟩)).vs).map e⟩, ⟨_, rfl⟩, rfl⟩)
+      exact ⟨fun hn => (auxHead_std P _ e H T c.auxName _).mpr (this.1 ⟨(⟨0, hne⟩, e), rfl, hn⟩),
+             fun hn => (auxHead_std P _ e T T c.auxName _).mpr (this.2 ⟨(⟨0, hne⟩, e), rfl, hn⟩)⟩
+    · exact hb.mpr (fun r hr => h r (Or.inl hr)) s (Or.inr hs)
+
+/-- **unfolding / folding with the defining rule present**: `aux(σᵢ V̄)` in the bodies and the literal set `σᵢ S` in its
+place give the SAME stable models as long as the rule `aux(V̄) :- S.` is in the program (read left to right: `inline`
+of a helper into positive body literals and the unfolding of copy rules; right to left: folding) -/
+theorem fold_all_existing (hpers : AggPersistent P) (c : Canon) (ps : List Place) (hne : 0 < ps.length)
+    (hps : ∀ p ∈ ps, PlaceOk c p) (ctx : Prog) (hctx : CtxAvoids c ctx) (T : Interp) :
+    Stable (stdParams P) (after c ps ctx) T ↔ Stable (stdParams P) (beforeWith c ps ctx) T := by
+  have hw := wf P hpers c ps hps _ (ctx_indep P c ps ctx hctx)
+  rw [← stable_denote, ← stable_denote, Sem.stable_of_models (models_after P c ps hne hps ctx hw) T,
+    Sem.stable_of_models (models_beforeWith P c ps hne hps ctx hw) T]
+  exact ((sd P c ps _).fold_existing hw (glue P c ps hps _) T).symm
+
 /-- the order (and multiplicity) of the statements of a program is immaterial -/
 theorem stable_of_same_statements (a b : Prog) (h : ∀ s, s ∈ a ↔ s ∈ b) (T : Interp) :
     Stable (stdParams P) a T ↔ Stable (stdParams P) b T := by
